@@ -281,7 +281,9 @@ def run(analysis: Analysis, tier: str) -> RuleResult:
             if e.kind == "setitem" and len(e.args) == 2:
                 k, val = e.args
                 src = val.key()
-                if not (isinstance(k, _Const) and isinstance(src, tuple) and src[0] == "get" and isinstance(src[2], tuple) and src[2][:2] == ("c", "str") and src[2][2] == "_" + str(k.value)):
+                from_get = isinstance(k, _Const) and isinstance(src, tuple) and src[0] == "get" and isinstance(src[2], tuple) and src[2][:2] == ("c", "str") and src[2][2] == "_" + str(k.value)
+                from_attr = isinstance(k, _Const) and isinstance(src, tuple) and len(src) == 3 and src[0] == "attr" and src[2] == "_" + str(k.value)
+                if not (from_get or from_attr):
                     gs_problems.append(f"state[{k.key()!r}] is stored from {src!r}: not the value popped from the private attribute of that name")
         renamed |= set(pops)
         full = set(pops) if full is None else (full & set(pops))
@@ -339,7 +341,7 @@ def run(analysis: Analysis, tier: str) -> RuleResult:
     for summ in common.pmap(analysis, c12.save_worker, [(e, (analysis.versions[-1], "serial", "sync")) for e in persist.EXTS]):
         c12.analyse_save_rows(tmp, summ)
     for o in tmp.obs:
-        if "written from empty" in o.construct or "sensor map is what is dumped" in o.construct or "every string can be written" in o.construct:
+        if any(t in o.construct for t in ("written from empty", "sensor map is what is dumped", "every string can be written", "marked unsaved", "dirty flag", "a save is skipped only", "does not modify the live state")):
             res.add("C11-R5", o.construct, o.ok, o.where, o.detail, o.witness)
     # R4: pickle writes the whole instance dict, the transient hold queue included (it is only reset on load):
     # whatever is put into Sensor.queue must be plain picklable data - the encoded line, not an object that
